@@ -133,6 +133,7 @@ def correspond(ctx):
             ctx.mismatch("create_ising_circuit gate list vs CircuitLib", {"L": L, "periodic": periodic}, (rx, rzz, others), (mf, mb))
     hamiltonian_correspondence(ctx)
     bose_correspondence(ctx)
+    transmon_correspondence(ctx)
 
 
 def captured_terms(build):
@@ -248,6 +249,47 @@ def bose_correspondence(ctx):
                             bad = f"tensor {i}: transition {rr}->{cc} does not carry symbol {exp_sym}"
             if bad:
                 ctx.mismatch("bose_hubbard tensors vs ChainFSM.out", {"L": L, "local_dim": d}, bad, "transition table of the model", key="bose-fsm")
+
+
+def transmon_correspondence(ctx):
+    """MPO.coupled_transmon: every tensor decoded into a transition table over named local operators vs Model/Transmon.chain."""
+    from mqt.yaqs.core.data_structures.networks import MPO
+
+    hdr = "From Coq Require Import List. Import ListNotations.\nFrom Yaqs Require Import Model.Transmon."
+    lengths = list(range(1, 9))
+    vals = common.coq_eval(hdr, [f"chain {L}%nat" for L in lengths], "c07t")
+    for L, want in zip(lengths, vals):
+        for dq, dr in ((2, 2), (2, 3), (3, 2)):
+            wq, wr, al, g = 0.9 + 0.01 * L, 0.6, -0.35, 0.27
+
+            def low(dd):
+                return np.diag(np.sqrt(np.arange(1, dd)), 1).astype(complex)
+
+            bq, br = low(dq), low(dr)
+            nq, nr = bq.conj().T @ bq, br.conj().T @ br
+            syms = {0: np.eye(dq, dtype=complex), 1: np.eye(dr, dtype=complex), 2: wq * nq + 0.5 * al * nq @ (nq - np.eye(dq)), 3: wr * nr,
+                    4: g * (bq + bq.conj().T), 5: br + br.conj().T}
+            mpo = MPO.coupled_transmon(L, dq, dr, wq, wr, al, g)
+            ctx.case(nontrivial_key=("transmon-fsm", L, dq, dr) if L >= 4 else None, validated=True)
+            ctx.count("transmon_automata")
+            bad = None
+            for i, (t, tabw) in enumerate(zip(mpo.tensors, want)):
+                t = np.asarray(t)
+                rows, cols = t.shape[2], t.shape[3]
+                if rows != len(tabw) or any(cols != len(r_) for r_ in tabw):
+                    bad = f"tensor {i} has bond dimensions {rows}x{cols}, model {len(tabw)}x{len(tabw[0])}"
+                    break
+                for r in range(rows):
+                    for c in range(cols):
+                        blk, e = t[:, :, r, c], tabw[r][c]
+                        e = e[1] if isinstance(e, tuple) else e  # Some x is parsed as App('Some', x)
+                        if e is None:
+                            if np.max(np.abs(blk)) > 1e-14:
+                                bad = f"tensor {i}: unexpected operator at transition {r}->{c}"
+                        elif blk.shape != syms[e].shape or not np.allclose(blk, syms[e], atol=1e-14):
+                            bad = f"tensor {i}: transition {r}->{c} does not carry symbol {e}"
+            if bad:
+                ctx.mismatch("coupled_transmon tensors vs Transmon.chain", {"L": L, "qubit_dim": dq, "resonator_dim": dr}, bad, "transition tables of the model", key="transmon-fsm")
 
 
 # ---- dense definitions ------------------------------------------------------------------------------------------------
